@@ -17,7 +17,14 @@ def plan(tier, seed):
     for sch in ("CT14.Pi", "ANSS16.Scheme3"):
         specs.append({"name": f"padding-keywords-{gen.SHORT[sch]}", "kind": "padding", "scheme": sch,
                       "rounds": 25 if tier == "quick" else 600, "budget_s": 60 if tier == "quick" else 400})
+    from vlib import gen as _g
+    for j, sch_ in enumerate(_g.SCHEMES):
+        specs.append({"name": f"searched-from-threads-{_g.SHORT[sch_]}", "kind": "threads", "schemes": [sch_],
+                      "primitive_monitors": False, "rounds": 1 if tier == "quick" else 12, "seconds_per_scheme": 9,
+                      "budget_s": 300})
     for j in range(2 if tier == "quick" else 4):
+        specs.append({"name": f"long-keywords-{j}", "kind": "long_keywords", "index": j * 4,
+                      "budget_s": 12 if tier == "quick" else 200})
         specs.append({"name": f"feedback-keywords-{j}", "kind": "feedback", "index": j * 4,
                       "budget_s": 12 if tier == "quick" else 200})
         specs.append({"name": f"steered-values-{j}", "kind": "steered", "index": j * 3,
@@ -112,10 +119,19 @@ def run_shard(spec, acc, ctx):
     if spec.get("kind") == "feedback":
         eng.run_feedback(spec, acc, ctx, "absent")
         return
+    if spec.get("kind") == "long_keywords":
+        eng.run_long_keywords(spec, acc, ctx, "absent")
+        return
+    if spec.get("kind") == "threads":
+        eng.run_threads(spec, acc, ctx, "absent")
+        return
     eng.run(spec, acc, ctx, "absent")
 
 
 def replay(case, acc, ctx):
+    if case.get("threads"):
+        acc.count("replayed")
+        return eng.run_threads({"schemes": [case["scheme"]], "rounds": 3, "seconds_per_scheme": 9}, acc, ctx, "absent")
     if case.get("steered"):
         return eng.replay_steered(case, acc, ctx, "absent")
     scheme, cfg, db = case["scheme"], case["cfg"], case["db"]
